@@ -45,11 +45,25 @@ def merge(prog, run, rule):
         if not seqs:
             return ob(role, None, "store of the merged mode into the returned array not found")
         stores = [(None, None, v, n, []) for v, n in seqs]
+    # an array filled block by block (several stores into row ranges of the result): each store must be one of the blocks the required
+    # order is made of - where the blocks are put is not followed here, so the whole is then left open; a store that is none of them
+    # (references in ascending order, another setup's list removed) is wrong wherever it is put
+    blockwise = len(stores) > 1 and all(st[1] is not None for st in stores)
+    P_ = seqdom.P
+    parts = set()
+    if blockwise:
+        parts.add(seqdom.canon(seqdom.listed(0)))
+        parts.add(seqdom.canon(seqdom.roving(0)))
+        for st in stores:
+            for l_ in st[4]:
+                parts.add(seqdom.canon(seqdom.roving(P_.s(l_[1]))))
     for name, idx, val, node, loops in stores:
         if not isinstance(val, (seqdom.Sq, seqdom.Vec)):
             ob(role, None, f"stored value `{astq.src(node, 60)}` is not a recognised row sequence", node)
             continue
         ok, txt = _verdict(it.as_seq(val), seqdom.global_order())
+        if ok is False and blockwise and seqdom.canon(it.as_seq(val)) in parts:
+            ok, txt = None, f"one block of the required order ({seqdom.canon(it.as_seq(val))}), stored into a row range of the result: the placement of the blocks is not followed"
         ob(role, ok, txt, node, w=txt[:120])
     # the scale factor pairs reference sensor k of the first setup with reference sensor k of setup i: both in LISTED order
     msf = [c for c in it.calls if c[0].endswith(".MSF")]
@@ -135,6 +149,23 @@ def pre(prog, run, rule):
             sel = ("for", t[1], t[2], t[3], dict(t[4][1])[key])
             ok, txt = _verdict(sel, ("for", "v7", P_.c(0), P_.s("N"), want))
             ob(what, ok, txt, n)
+    # whatever the selection looks like: the index list it is made with must still be in the order the user listed the references -
+    # a validating helper that returns the sorted / de-duplicated copy it made for its checks loses it
+    for sub in ast.walk(fi.node):
+        if not (isinstance(sub, ast.Subscript) and isinstance(sub.ctx, ast.Load)):
+            continue
+        for e in astq.index_elts(sub):
+            if isinstance(e, (ast.Slice, ast.Constant)):
+                continue
+            fl = order_flow(prog, fi, e, {pr})
+            if fl == "lost" and any(isinstance(x, ast.Name) for x in ast.walk(e)):
+                # used as a complement (everything but these) the order does not matter: only a direct selection is judged
+                ctx_names = astq.src(sub, 200)
+                if "setdiff" in ctx_names or "delete" in ctx_names or "~" in astq.src(e, 80) or "isin" in astq.src(e, 80):
+                    continue
+                ob("split: the reference channels are selected with the list in its listed order", False,
+                   f"`{astq.src(sub, 60)}`: the index `{astq.src(e, 40)}` comes out of a sort / unique / set made from `{pr}` - the references of a setup are taken in "
+                   f"ascending channel order, not in the order listed", sub)
     # layout of the two arrays: one channel per ROW (the consumers stack and index them by rows)
     for key, axis in sorted(it.sh.get("dict_layout", {}).items()):
         ob(f"split: '{key}' holds one channel per row", True if axis == 0 else (False if axis == 1 else None),
@@ -182,6 +213,8 @@ def order_flow(prog, fi, e, sources, depth=3, _seen=()):
     None: not followed.  Flow-insensitive over the assignments, appends and loops of fi; helpers of the package are followed."""
     def comb(vs):
         vs = list(vs)
+        if any(v == "complement" for v in vs):
+            return "complement"     # everything BUT the listed ones: their order plays no part
         if any(v == "lost" for v in vs):
             return "lost"
         if vs and all(v == "kept" for v in vs):
@@ -237,7 +270,11 @@ def order_flow(prog, fi, e, sources, depth=3, _seen=()):
             if isinstance(x.func, ast.Attribute) and not (isinstance(x.func.value, ast.Name) and x.func.value.id in ("np", "numpy", "copy")):
                 args = [x.func.value] + args
             inner = [v for v in (flow(a, seen) for a in args) if v != "const"]
+            if last in ("setdiff1d", "delete") and len(x.args) >= 2 and flow(x.args[1], seen) in ("kept", "lost", "complement"):
+                return "complement"
             if last in ORDER_LOSING_CALLS:
+                if any(v == "complement" for v in inner):
+                    return "complement"
                 return "lost" if any(v in ("kept", "lost") for v in inner) else None
             if last in ORDER_KEEPING_CALLS:
                 inner = [v for v in inner if v is not None] if last == "where" else inner
